@@ -45,7 +45,7 @@ def check(run, driver):
     }
     nper = (6 if thorough else 2)
     for info in ESTIMATORS:
-        reps = nper * (1 if info in ("geometric_knn", "poisson") else 3)
+        reps = nper * (1 if info in ("geometric_knn", "poisson") else (6 if info == "kde" else 3))
         for rep in range(reps):
             for cond in (False, True):
                 for datakind in (["continuous"] if info in ("knn", "kde", "geometric_knn") else (["count"] if info == "poisson" else ["continuous", "count"])):
@@ -60,7 +60,7 @@ def check(run, driver):
                     else:
                         mix = rng.standard_normal((kx + ky + kz, kx + ky + kz)) * 0.5 + np.eye(kx + ky + kz)
                         if rep % 2:
-                            base = rng.uniform(0, 2, size=(N, kx + ky + kz)) @ (mix if rep % 4 == 1 else np.eye(kx + ky + kz))   # platykurtic data: KDE terms can be negative
+                            base = rng.uniform(0, 2, size=(N, kx + ky + kz)) @ (mix if rep % 4 == 1 and info != "kde" else np.eye(kx + ky + kz))   # platykurtic data: KDE terms can be negative
                         else:
                             base = rng.standard_normal((N, kx + ky + kz)) @ mix
                     X, Y, Z = base[:, :kx], base[:, kx:kx + ky], (base[:, kx + ky:] if cond else None)
@@ -117,6 +117,29 @@ def check(run, driver):
                                 vz = f(X, Y, Z[:, list(cp)])
                                 if not rel_close(v, vz):
                                     run.prop_fail("estimate depends on the order of the conditioning columns", case, sig("z_col_perm"), {"base": v, "reordered": vz, "column_order": cp}); break
+    # ---- dedicated stream: KDE on platykurtic (uniform) data, where individual KDE information terms are often negative
+    for it in range(120 if thorough else 40):
+        N = int(rng.integers(12, 46)); kx, ky, kz = int(rng.integers(1, 3)), int(rng.integers(1, 3)), int(rng.integers(1, 4))
+        W = rng.uniform(0, 2, size=(N, kx + ky + kz))
+        X, Y, Z = W[:, :kx], W[:, kx:kx + ky], W[:, kx + ky:]
+        bw = ["silverman", "scott", 0.6][it % 3]
+        for path, zz in (("Z given", Z), ("Z is None", None)):
+            f = lambda a, b, c: float(C.conditional_mutual_information(a, b, c, method="kde", bandwidth=bw)) if it % 2 else (
+                float(C.kde_conditional_mutual_information(a, b, c, bandwidth=bw)))
+            case = {"estimator": "kde", "path": path, "data": "uniform", "N": N, "kx": kx, "ky": ky, "kz": kz, "bandwidth": bw, "X": X, "Y": Y, "Z": zz}
+            v = f(X, Y, zz)
+            run.case("kde-uniform", [N, kx, ky, kz, str(bw), path, float(W[0, 0])], True)
+            vs = f(Y, X, zz)
+            if not rel_close(v, vs):
+                run.prop_fail("estimate changes when X and Y are exchanged", case, {"estimator": "kde", "path": path, "transformation": "swap_xy"}, {"I(X;Y|Z)": v, "I(Y;X|Z)": vs})
+            pm = rng.permutation(N)
+            vp = f(X[pm], Y[pm], None if zz is None else zz[pm])
+            if not rel_close(v, vp):
+                run.prop_fail("estimate changes when the rows of X, Y and Z are jointly reordered", case, {"estimator": "kde", "path": path, "transformation": "row_perm"}, {"base": v, "permuted": vp})
+            if zz is not None and kz >= 2:
+                vz = f(X, Y, zz[:, ::-1])
+                if not rel_close(v, vz):
+                    run.prop_fail("estimate depends on the order of the conditioning columns", case, {"estimator": "kde", "path": path, "transformation": "z_col_perm"}, {"base": v, "reordered": vz})
     # ---- unconditional Poisson path vs the Lean model (CEModel/PoissonMI.lean): the estimator as a function of the correlation matrix
     from common import mat, unval, vec
     E = importlib.import_module("causationentropy.core.information.entropy")
